@@ -203,11 +203,12 @@ class exp_as_uf:
     """inside: np.exp of a plain symbolic real is an uninterpreted positive function (sound over-approximation)."""
 
     def __enter__(self):
-        self.old = CONFIG["exp_uf"]
+        self.old = (CONFIG["exp_uf"], CONFIG["log_uf"])
         CONFIG["exp_uf"] = z3.Function("EXP", z3.RealSort(), z3.RealSort())
+        CONFIG["log_uf"] = z3.Function("LOG", z3.RealSort(), z3.RealSort())
 
     def __exit__(self, *a):
-        CONFIG["exp_uf"] = self.old
+        CONFIG["exp_uf"], CONFIG["log_uf"] = self.old
 
 
 def run_one_step(ctx, kernel, u, x, logl, blobs, assignments, beta, ms, cb: Callbacks, periodic=None, reflective=None,
